@@ -455,8 +455,9 @@ func (ex *exec) assert(c value, oblig string) {
 			ex.disch++
 			return
 		}
+		// record and go on: later obligations on this path are still checked
 		ex.recordFailure("assert", oblig, "assertion is false on this path", nil)
-		panic(pathEnd{"failed", oblig})
+		return
 	case *sym:
 		r := ex.sat(mkNot(c))
 		switch r {
